@@ -102,6 +102,13 @@ fn small_ids_complete() {
     assert!(t.is_ok() == (n == 0 || n == 1 || n == 3));
     let e: u16 = kani::any();
     assert!(crate::midas::EventId::try_from(e).is_ok() == (e == 1 || e == 4 || e == 8));
+    // which event is which (the analysis binaries select their events by these three values)
+    match crate::midas::EventId::try_from(e) {
+        Ok(crate::midas::EventId::Main) => assert!(e == 1),
+        Ok(crate::midas::EventId::Chronobox) => assert!(e == 4),
+        Ok(crate::midas::EventId::Sequencer2) => assert!(e == 8),
+        Err(_) => {}
+    }
     let cb = crate::chronobox::ChannelId::try_from(n);
     assert!(cb.is_ok() == (n < 59));
     if let Ok(cb) = cb { assert!(u8::from(cb) == n); }
